@@ -88,12 +88,14 @@ def extra_checks(ctx):
     """independent oracle: what the real parsers return for a rendered file is the generated boards"""
     rng = random.Random(f'C17-oracle/{ctx.seed}/{ctx.shard}')
     fails = []
+    pbn_texts = []
     for i in range(60 if ctx.quick else 600):
         ops, boards = B.gen_layout_ops(rng, ctx=None)
         ctx.count('_cases')
         ctx.count('_evals', 2)
         ctx.count('oracle_layouts')
         lay_out = B.impl_exec(ops + ['B.fadm', 'B.fsettings s', 'B.fsettings f'])
+        pbn_texts.append(B.unhx(B.impl_exec(ops + ['B.ftext'])[-1]))
         want = B.expected_settings_line(boards)
         if lay_out[-3] != '1':
             raise common.Infra('layout generator produced an inadmissible layout: ' + repr(ops)[:400])
@@ -103,6 +105,15 @@ def extra_checks(ctx):
                               'ops': ops + ['B.fadm', 'B.ftext', f'B.fsettings {mode}'],
                               'diff': {'mode': mode, 'got': got[:600], 'want': want[:600]}})
                 break
+    # the TRANSLATED PBN parser (Generated/PyCorePbn.lean: extract_content, parse_board, the generator parse_stream, parse_all,
+    # parse_board_settings) reads these import files — and PBN-ish soup with comments, stray quotes and brackets — as the real
+    # parser does (same games, same boards, same exception class)
+    import pbn_translated as PT
+    soup = [B.rand_soup(rng) for _ in range(40 if ctx.quick else 400)]
+    tdiffs, nrun = PT.check(common.REPO, common.ModelDriver(), pbn_texts[:40 if ctx.quick else 300] + soup)
+    ctx.count('translated_pbn_parser_runs', nrun)
+    for d in tdiffs[:4]:
+        fails.append({'key': 'translated-pbn-parser', 'kind': 'broken-correspondence', 'ops': [], 'diff': d})
     # JSON settings: what was written is what is read
     e = J.env()
     for i in range(40 if ctx.quick else 300):
